@@ -114,7 +114,9 @@ func runMutant(p *Property, id string) int {
 		return 4
 	}
 	for _, o := range newBad {
-		if m.Rule == "" || o.Rule == m.Rule {
+		// the named rule is the one expected for the mutant's first property; for the
+		// other properties it is listed under, any of their rules noticing is enough
+		if m.Rule == "" || o.Rule == m.Rule || p.ID != m.Props[0] {
 			fmt.Printf("MUTANT %s caught by [%s] %s\n", id, o.Rule, o.Construct)
 			return 0
 		}
